@@ -36,18 +36,20 @@ namespace sim
 {
 namespace detail
 {
-inline long &current_run()
+__attribute__((noinline, no_sanitize("thread"))) inline long &current_run()
 {
   static long r = -1;
   return r;
 }
-inline char const *&current_fault()
+__attribute__((noinline, no_sanitize("thread"))) inline char const *&current_fault()
 {
   static char const *f = "";
   return f;
 }
 
-inline void died()
+// (not instrumented: it may run on the watchdog thread while the main thread is stuck, and a race
+// report about the harness's own bookkeeping would be mistaken for one about the code under test)
+__attribute__((noinline, no_sanitize("thread"))) inline void died()
 {
   char buf[160];
   int const n = std::snprintf(buf, sizeof buf, "\nDIED %ld %s\n", current_run(), current_fault());
